@@ -1,4 +1,4 @@
 SPECIFICATION Spec
-CONSTANTS MaxFields = 4  MaxCFields = 2  NestMax = 3  MaxBytes = 80  Wide = FALSE  Sel = 0  Mod = 1
+CONSTANTS MaxFields = 4  MaxCFields = 2  NestMax = 3  MaxBytes = 80  Wide = FALSE  NWalk = 0  Seed = 0  Sel = 0  Mod = 1
 INVARIANTS Sane ClassSane Emit
 CHECK_DEADLOCK FALSE
